@@ -24,6 +24,7 @@ import (
 	"net"
 	"os"
 	"os/exec"
+	"runtime/metrics"
 	"sort"
 	"strings"
 	"sync"
@@ -62,16 +63,29 @@ func (c *evictCtl) point(name string) {
 	}
 }
 
+// cpuNow is the process CPU time not attributed to the garbage collector (the code under test forces a full
+// collection on every admission test and every eviction; its cost grows with the heap, not with the command).
 func cpuNow() time.Duration {
 	var ru syscall.Rusage
 	if err := syscall.Getrusage(syscall.RUSAGE_SELF, &ru); err != nil {
 		return 0
 	}
-	return time.Duration(ru.Utime.Nano() + ru.Stime.Nano())
+	total := time.Duration(ru.Utime.Nano() + ru.Stime.Nano())
+	sample := []metrics.Sample{{Name: "/cpu/classes/gc/total:cpu-seconds"}}
+	metrics.Read(sample)
+	if sample[0].Value.Kind() == metrics.KindFloat64 {
+		gc := time.Duration(sample[0].Value.Float64() * float64(time.Second))
+		if gc < total {
+			total -= gc
+		}
+	}
+	return total
 }
 
 const (
-	evictCPUBudget  = 1500 * time.Millisecond // process CPU spent inside one command before it counts as a hang
+	evictCPUBudget  = 2500 * time.Millisecond // non-GC process CPU spent inside one command before it counts as a hang
+	evictPollBudget = 4000                    // polls of >= 0.5 ms completed by this process while the command made no progress
+	evictChildSeqs  = 40                      // sequences per child process (every instance leaks its ticker goroutine and its heap)
 	evictWallBudget = 180 * time.Second       // fallback for a blocked (not spinning) command
 )
 
@@ -89,6 +103,10 @@ func waitFor(cond func() bool, cpu0 time.Duration, t0 time.Time) bool {
 			if cpuNow()-cpu0 > evictCPUBudget || time.Since(t0) > evictWallBudget {
 				return false
 			}
+		}
+		// a blocked (not spinning) command burns no CPU: count the polls this process got to run instead of wall time
+		if n > evictPollBudget {
+			return false
 		}
 	}
 	return true
@@ -151,7 +169,7 @@ func evictChildRun(w *bufio.Writer, seqs []Seq, from int) error {
 	ctl := &evictCtl{}
 	verifhook.SetHandler(ctl.point)
 	var lastMs int64
-	for si := from; si < len(seqs); si++ {
+	for si := from; si < len(seqs) && si < from+evictChildSeqs; si++ {
 		s := seqs[si]
 		in, err := NewInst(s.Opts)
 		if err != nil {
@@ -170,17 +188,22 @@ func evictChildRun(w *bufio.Writer, seqs []Seq, from int) error {
 			if op.Adv != 0 {
 				in.Clock.Advance(op.Adv)
 			}
-			if len(op.Cmd) == 0 {
+			if len(op.Cmd) == 0 && op.Tick == 0 {
 				continue
 			}
 			var c *net.Conn
-			if op.Conn >= 0 {
+			if op.Conn >= 0 && op.Tick == 0 {
 				for len(conns) <= op.Conn {
 					conns = append(conns, in.NewConn())
 				}
 				c = conns[op.Conn]
 			}
 			cmd := UnhexCmd(op.Cmd)
+			tickDb := op.Tick - 1
+			if op.Tick > 0 {
+				// one pass of the sampler goroutine that NewSugarDB starts under every eviction policy
+				cmd = []string{"@tick", fmt.Sprint(tickDb)}
+			}
 			// stamps taken during this command must exceed every earlier stamp
 			for time.Now().UnixMilli() <= lastMs {
 				time.Sleep(200 * time.Microsecond)
@@ -194,7 +217,11 @@ func evictChildRun(w *bufio.Writer, seqs []Seq, from int) error {
 			if c != nil {
 				connTok = fmt.Sprint(in.ConnID(c))
 			}
-			fmt.Fprintf(w, "V %s.%d %d %d %s %d %s C %d", s.ID, i, in.Clock.Ms(), in.DbOf(c), connTok, s.Opts.MaxMemory, pol, len(cmd))
+			hdrDb := in.DbOf(c)
+			if op.Tick > 0 {
+				hdrDb = tickDb
+			}
+			fmt.Fprintf(w, "V %s.%d %d %d %s %d %s C %d", s.ID, i, in.Clock.Ms(), hdrDb, connTok, s.Opts.MaxMemory, pol, len(cmd))
 			for _, a := range cmd {
 				w.WriteString(" " + X(a))
 			}
@@ -208,6 +235,14 @@ func evictChildRun(w *bufio.Writer, seqs []Seq, from int) error {
 						done <- Result{"panic", fmt.Sprint(r)}
 					}
 				}()
+				if op.Tick > 0 {
+					if err := in.S.VerifSamplerTick(tickDb); err != nil {
+						done <- Result{"err", err.Error()}
+						return
+					}
+					done <- Result{"ok", ""}
+					return
+				}
 				res, err := in.S.VerifHandle(context.Background(), Encode(cmd), c, false, c == nil)
 				if err != nil {
 					done <- Result{"err", err.Error()}
@@ -328,7 +363,8 @@ func runEvictSeqs(w *bufio.Writer, seqs []Seq) error {
 			if partial != "" {
 				return fmt.Errorf("evict child ended normally with a partial line")
 			}
-			return nil
+			from += evictChildSeqs
+			continue
 		}
 		code := -1
 		if ee, ok := runErr.(*exec.ExitError); ok {
